@@ -234,9 +234,10 @@ class TranslatorSMT2(Translator):
                 else:
                     raise NotImplementedError("Unsupported OP yet: %s" % expr.op)
         elif expr.op == 'parity':
-            arg = bv_extract(7, 0, res)
+            nbits = min(8, expr.args[0].size)
+            arg = bv_extract(nbits - 1, 0, res)
             res = bit_vec_val(1, 1)
-            for i in range(8):
+            for i in range(nbits):
                 res = bvxor(res, bv_extract(i, i, arg))
         elif expr.op == '-':
             res = bvneg(res)
